@@ -201,6 +201,34 @@ func chainTx(n *Node, contracts *[]common.Address, t M) ([]byte, error) {
 			opt = govv1beta1.OptionNoWithVeto
 		}
 		return cosmos(300000, govv1beta1.NewMsgVote(from.Addr, uint64(num(t, "id", 1)), opt))
+	case "pc_delegate", "pc_undelegate":
+		m := "delegate"
+		if str(t, "k") == "pc_undelegate" {
+			m = "undelegate"
+		}
+		data, err := stakingABI.Pack(m, ethAddr(from), val().String(), coin(str(t, "amt")).Amount.BigInt())
+		if err != nil {
+			return nil, err
+		}
+		bz, _, err := n.EthTxFor(from, &stakingPC, big.NewInt(0), 3_000_000, data)
+		return bz, err
+	case "pc_withdraw":
+		data, err := distrABI.Pack("withdrawDelegatorRewards", ethAddr(from), val().String())
+		if err != nil {
+			return nil, err
+		}
+		bz, _, err := n.EthTxFor(from, &distrPC, big.NewInt(0), 3_000_000, data)
+		return bz, err
+	case "pc_setwd":
+		data, err := distrABI.Pack("setWithdrawAddress", ethAddr(from), w.Acct(str(t, "to")).Addr.String())
+		if err != nil {
+			return nil, err
+		}
+		bz, _, err := n.EthTxFor(from, &distrPC, big.NewInt(0), 3_000_000, data)
+		return bz, err
+	case "convert_coin":
+		c := sdk.NewCoin(fmt.Sprintf("aLIQUID%d", num(t, "id", 0)), coin(str(t, "amt")).Amount)
+		return cosmos(3000000, erc20types.NewMsgConvertCoin(c, ethAddr(w.Acct(str(t, "to"))), from.Addr))
 	case "bad_nonce":
 		// a transaction that the ante handler rejects (stale sequence): exercises the failure path
 		acc := n.App.AccountKeeper.GetAccount(n.Ctx(), from.Addr)
